@@ -172,7 +172,7 @@ static void play_sequence(xmp_context opaque, int k, int rate, int maxframes)
 	int duration = m->seq_data[k].duration;
 	double total = 0.0, min_tick = 1e9;
 	long total_fi_us = 0, total_samples = 0;
-	int frames = 0, loopinc = 0, rc, i;
+	int frames = 0, loopinc = 0, late = 0, rc, i;
 	uint64_t h = FNV_INIT;
 
 	nrows = 0;
@@ -208,7 +208,7 @@ static void play_sequence(xmp_context opaque, int k, int rate, int maxframes)
 			 * (or on entering an order that belongs to another sequence). */
 			int foreign = p->sequence_control[fi.pos] != k;
 			loopinc = 1;
-			if (fi.frame != 0 || !(played[fi.pos][fi.row & 255] || foreign)) {
+			if (!late && (fi.frame != 0 || !(played[fi.pos][fi.row & 255] || foreign))) {
 				printf("oracle_fail loop_early seq %d frame %d pos %d row %d fr %d: loop counter incremented on a row not played before\n",
 				       k, frames, fi.pos, fi.row, fi.frame);
 			}
@@ -220,13 +220,14 @@ static void play_sequence(xmp_context opaque, int k, int rate, int maxframes)
 		if (fi.frame == 0) {
 			struct rowg g;
 			int foreign = p->sequence_control[fi.pos] != k;
-			if (played[fi.pos][fi.row & 255] || foreign) {
+			if ((played[fi.pos][fi.row & 255] || foreign) && !late) {
+				/* reported once; rendering goes on so that the trace can still be compared with the model */
+				late = 1;
 				printf("oracle_fail loop_late seq %d frame %d pos %d row %d: row %s re-entered without loop counter increment\n",
 				       k, frames, fi.pos, fi.row, foreign ? "of another sequence" : "already played");
-				break;
 			}
 			played[fi.pos][fi.row & 255] = 1;
-			if (!entered[fi.pos]) {
+			if (!entered[fi.pos] && !late) {
 				/* first entry of this order: the recorded start time must be the rendered time */
 				double rec = m->xxo_info[fi.pos].time;
 				entered[fi.pos] = 1;
@@ -286,14 +287,14 @@ static void play_sequence(xmp_context opaque, int k, int rate, int maxframes)
 	/* duration vs rendered time: within one tick */
 	if (min_tick > 1e8)
 		min_tick = 0.0;
-	if (fabs((double)duration - total) >= min_tick) {
+	if (!late && fabs((double)duration - total) >= min_tick) {
 		printf("oracle_fail duration seq %d reported %d ms rendered %.3f ms (one tick = %.3f ms)\n", k, duration, total, min_tick);
 	}
 	/* independent sums: the public integer frame_time (us, truncated per frame) and the sample count */
-	if (fabs(total_fi_us / 1000.0 - duration) >= min_tick + frames / 1000.0) {
+	if (!late && fabs(total_fi_us / 1000.0 - duration) >= min_tick + frames / 1000.0) {
 		printf("oracle_fail duration_public seq %d reported %d ms sum fi.frame_time %.3f ms\n", k, duration, total_fi_us / 1000.0);
 	}
-	if (fabs(total_samples * 1000.0 / rate - duration) >= min_tick + frames * 1000.0 / rate) {
+	if (!late && fabs(total_samples * 1000.0 / rate - duration) >= min_tick + frames * 1000.0 / rate) {
 		printf("oracle_fail duration_samples seq %d reported %d ms rendered samples %.3f ms\n", k, duration, total_samples * 1000.0 / rate);
 	}
 	if (fi.total_time != duration) {
